@@ -17,6 +17,6 @@ echo "== check $prop with patch applied to /repo"
 git -C /repo apply $seed/patch.diff || { echo "patch does not apply to /repo"; exit 2; }
 # evidence written while a seeded change is applied must not replace the evidence of the unchanged tree
 bak=$(mktemp -d); cp -a /verif/evidence/. $bak/
-(cd /verif && timeout 1800 ./check $prop 2>/dev/null | grep -v "^loaded\|^Harness" | tail -6)
+(cd /verif && timeout 1800 ./check $prop $CHECK_ARGS 2>/dev/null | grep -v "^loaded\|^Harness" | tail -6)
 rm -rf /verif/evidence; mkdir -p /verif/evidence; cp -a $bak/. /verif/evidence/; rm -rf $bak
 git -C /repo checkout -q -- . ; git -C /repo status --short | head -3
